@@ -292,6 +292,7 @@ def cmdCalcSighash (spec : Bool) (a : List String) : String :=
             else
               let ext : Option Spec.TapExt := leaf.map (fun l => { leafHash := l, codesepPos := 0xffffffff })
               toHex (Spec.bip341Digest Crypto.sha256 tx idx 0 [o] annex ext)
+          else if tx.vin.length != 1 then "EXIT1"      -- Instance::calc_sighash refuses other input counts (diagnostic, exit 1)
           else
             match Model.calcSighashTxData sghCr tx o preamble with
             | .error e => sghErr e
